@@ -8,7 +8,9 @@
   §3  loop skeletons (vv, sv, vs, incr, iter, recv, ...) as MiniGo AST builders
   §4  the kernel template table  (family name ↦ class ↦ expected abstracted function)
   §5  dispatcher arm / frame templates
-  §6  conformance checkers used by Props/C17.lean
+  §6  conformance checkers used by Props/C17.lean (`expectedAt`, `famOK` at the end of §4;
+      `expectedArm`, `methodOK`, diagnosis, `arms_call_existing_kernels` at the end of §5)
+  §7  semantics: `sem_vv / sem_sv / sem_vs / sem_incr / sem_iter_vv` about the template ASTs
 
   A template mirrors the code *including its uniform oddities* (they are the same for every
   element type, so they are not C17 violations); the ones noticed are marked `ODDITY`.
@@ -457,7 +459,7 @@ def kernelTemplates : List (String × Tmpl) :=
   ++ mapFamily ++ reduceFamily
   ++ argFamily "Argmax" ">" lit1 ++ argFamily "Argmin" "<" (un "-" lit1)
 
-/-! ### the abstraction of the element type, applied to an instantiated template
+/-! ### §6a the abstraction of the element type, applied to an instantiated template
 
 `gox` replaces the Go element type identifier of a row by `$T`.  A template is written with `$T`
 for the element type and with the concrete identifiers `int` (index variables, sizes) and `bool`
@@ -937,7 +939,7 @@ theorem methodOK_iff (m : DMethod) : methodOK m = true ↔ methodConforms m = tr
   split <;> simp
 
 
-/-! ### diagnosis (see tools/gox/diagnose.lean): which functions / arms fail
+/-! ### §6b diagnosis (see tools/gox/diagnose.lean): which functions / arms fail
 `*` = whole family / method without template, `:frame` = prelude or `default:` arm differs,
 `:types` = the set of types differs from the supported set -/
 def nonconformingKernels (fams : List KFam) : List String :=
